@@ -100,25 +100,45 @@ let fnv (h : int64) (s : string) : int64 =
 let string_of_cps (l : int list) : string =
   let b = Buffer.create 16 in List.iter (add_utf8 b) l; Buffer.contents b
 
-(* oracle consistency of one enumerated numeric case: the token line of the
+(* oracle consistency of one enumerated lexical case: the token line of the
    model against the spec classification of the whole string *)
-let starts_with s p = String.length s >= String.length p && String.sub s 0 (String.length p) = p
-
-let esc_plain (s : string) = s  (* numeric alphabet needs no escaping *)
-
-let check_num_oracle (s : int list) (line : string) : string option =
-  let str = string_of_cps s in
-  let k = int_of_n (oracle_num (List.map n_of_int s)) in
+let check_oracle ~(kinds : char list) ~(oracle : n list -> n) (s : int list) (line : string) : string option =
+  let sn = List.map n_of_int s in
+  let k = int_of_n (oracle sn) in
   let len = List.length s in
   let single kind =
-    Printf.sprintf "0:%c%s %d:O; | EOF end=%d | " kind (esc_plain str) len len in
-  let is_single_numeric =
-    List.exists (fun c -> line = single c) ['N'; 'F'; 'M'] in
+    Printf.sprintf "0:%c%s %d:O; | EOF end=%d | " kind (of_model (esc_str sn)) len len in
+  let starts_single kind =
+    let p = Printf.sprintf "0:%c%s %d:O; | EOF" kind (of_model (esc_str sn)) len in
+    String.length line >= String.length p && String.sub line 0 (String.length p) = p in
+  let is_single = List.exists starts_single kinds in
   if k <> 0 then
-    (if line = single (Char.chr k) then None
+    (if starts_single (Char.chr k) then None
      else Some (Printf.sprintf "spec says %c literal, scanner gives: %s" (Char.chr k) line))
-  else if is_single_numeric then Some (Printf.sprintf "spec says not a literal, scanner gives: %s" line)
-  else None
+  else if is_single then Some (Printf.sprintf "spec says not a literal, scanner gives: %s" line)
+  else (ignore single; None)
+
+let oracle_for alpha wrapk =
+  match alpha, wrapk with
+  | "num", "bare" -> Some (['N'; 'F'; 'M'], oracle_num)
+  | "str", "squote" -> Some (['R'], oracle_rune)
+  | "str", ("dquote" | "bquote") -> Some (['S'], oracle_string)
+  | _ -> None
+
+(* projection: the tokens and whether the scan ended in EOF or an error (no
+   error location, no line table) *)
+let project_toks (line : string) : string =
+  let n = String.length line in
+  let rec find i = if i + 2 >= n then None
+    else if line.[i] = ' ' && line.[i+1] = '|' && line.[i+2] = ' ' then Some i else find (i + 1) in
+  let cut = if n >= 2 && line.[0] = '|' && line.[1] = ' ' then Some (-1) else find 0 in
+  match cut with
+  | None -> line
+  | Some i ->
+    let toks = if i < 0 then "" else String.sub line 0 i in
+    let rest = String.sub line (i + 3) (n - i - 3) in
+    let word = try String.sub rest 0 (String.index rest ' ') with Not_found -> rest in
+    toks ^ " | " ^ word
 
 let run_enum args =
   match args with
@@ -132,13 +152,15 @@ let run_enum args =
       let s = wrap wrapk (decode alpha_a idx) in
       let line = match mode with
         | "tokens" -> of_model (run_tokens (List.map n_of_int s))
+        | "toks" -> project_toks (of_model (run_tokens (List.map n_of_int s)))
         | _ -> failwith "unknown enum mode" in
-      (if alpha = "num" && wrapk = "bare" then begin
-         (match check_num_oracle s line with
+      (match oracle_for alpha wrapk with
+       | Some (kinds, oracle) ->
+         (match check_oracle ~kinds ~oracle s line with
           | Some msg -> incr bad; Printf.printf "ORACLE %d %s\n" idx msg
           | None -> ());
-         if int_of_n (oracle_num (List.map n_of_int s)) <> 0 then incr positives
-       end);
+         if int_of_n (oracle (List.map n_of_int s)) <> 0 then incr positives
+       | None -> ());
       if verbose then Printf.printf "%d %s\n" idx line
       else begin
         h := fnv (fnv !h line) "\n";
@@ -151,8 +173,31 @@ let run_enum args =
     Printf.printf "STATS positives=%d oracle_bad=%d\n" !positives !bad
   | _ -> failwith "enum <alphabet> <wrap> <mode> <lo> <hi> [verbose]"
 
+(* judge <alphabet> <wrap>: stdin lines "<idx>\t<implementation's line>"; verdict of the
+   spec oracle on what the implementation printed for that enumerated input *)
+let run_judge alpha wrapk =
+  let alpha_a = Array.of_list (alphabet alpha) in
+  (try
+     while true do
+       let ln = input_line stdin in
+       match String.index_opt ln '\t' with
+       | None -> ()
+       | Some i ->
+         let idx = int_of_string (String.sub ln 0 i) in
+         let line = String.sub ln (i + 1) (String.length ln - i - 1) in
+         let s = wrap wrapk (decode alpha_a idx) in
+         (match oracle_for alpha wrapk with
+          | Some (kinds, oracle) ->
+            (match check_oracle ~kinds ~oracle s line with
+             | Some msg -> Printf.printf "%d BAD %s\n" idx msg
+             | None -> Printf.printf "%d OK\n" idx)
+          | None -> Printf.printf "%d OK\n" idx)
+     done
+   with End_of_file -> ())
+
 let () =
   match Array.to_list Sys.argv with
+  | _ :: "judge" :: alpha :: wrapk :: _ -> run_judge alpha wrapk
   | _ :: "tokens" :: _ ->
     List.iter (fun r -> print_endline (of_model (run_tokens (to_model r)))) (read_records ())
   | _ :: "enum" :: args -> run_enum args
